@@ -9,6 +9,7 @@ CONSTANTS
   UseDup = FALSE
   DumpReset = FALSE
   CmdSet = {"add", "rm"}
+  ScriptName = "none"
   Reps <- MCReps
   Actors <- MCActors
   Members <- MCMembers
